@@ -46,4 +46,9 @@ func init() {
 			Rules: []*RuleResult{c.rule("R10", ruleR10)},
 			Explain: "partial"}
 	}}
+	properties["C15"] = propDef{run: func(c *Ctx) *PropertyRun {
+		return &PropertyRun{Level: "other", Trusted: trustedBase, Assume: commonAssumptions,
+			Rules: []*RuleResult{c.rule("R12", ruleR12), c.rule("R12g", ruleR12g)},
+			Explain: "partial"}
+	}}
 }
